@@ -110,12 +110,17 @@ def shard_fn(shard, nshards, seed, tier, exe, ndocs, nenum):
                 text = b"[" + b'"' + b"x" * (k - 4) + b'"' + b"]"
         elif r < 0.9:
             text = mutate(rng, dg.document()[0])
-        else:
+        elif r < 0.95:
             text = b"[" * rng.choice([5, 31, 32, 33, 40]) + b"1" + b"]" * 40
+        else:
+            # a document that is too deep (or just not) EARLY, then goes on for several read blocks: an error found in one block is the result, whatever follows in later blocks
+            d = rng.choice([2, 3, 5, 31, 32, 33])
+            text = b"[" * d + b"1" + b"]" + b" " * rng.choice([4090, 4200, 8200, 13000]) + b"]" * (d - 1) + rng.choice([b"", b" ", b"x"])
+            sh.count("read.early_nesting_then_several_blocks")
         cmds, plan = [], []
         for _ in range(3):
             caps = schedules(rng)
-            depth = rng.choice([-1, -1, -1, 1, 2, 5, 31, 32, 33, 64, 0])
+            depth = rng.choice([-1, -1, -1, 1, 2, 3, 4, 5, 31, 32, 33, 64, 0])
             if rng.random() < 0.35:
                 err_at, eno = rng.randrange(0, 5), rng.choice([EIO, EINTR, EAGAIN])
             else:
